@@ -8,7 +8,7 @@ Mirrors `analyzer/ast/types.go` (types without spans, `Fields()`), `analyzer/typ
 namespace Hms.Check
 
 /-- Semantic types (`ast.Type` without spans). Function types carry parameter names because
-`TypeCheck` matches parameters by name. `fnvar` is the host-only variadic function type. -/
+`TypeCheck` compares the names of corresponding parameters. `fnvar` is the host-only variadic function type. -/
 inductive Ty where
   | unknown | never | any | null | int | float | bool | str | range | anyobj
   | list (t : Ty)
@@ -172,16 +172,16 @@ def tcFields (allowFn : Bool) (gf : List (String × Ty)) : (ef : List (String ×
       match typeCheck allowFn g e with
       | some m => some m
       | none => tcFields allowFn gf rest
-/-- every expected parameter exists on `got` (by name) with a compatible type -/
-def tcParams (allowFn : Bool) (gp : List (String × Ty)) : (ep : List (String × Ty)) → Option Msg
-  | [] => none
-  | (n, e) :: rest =>
-    match lookupTy n gp with
-    | none => some .fnParamMissing
-    | some g =>
-      match typeCheck allowFn g e with
-      | some m => some m
-      | none => tcParams allowFn gp rest
+/-- parameters correspond by position (call arguments are bound in this order): the i-th
+parameter of `got` has the name of the i-th expected one and a compatible type (repair F1; the
+lists have the same length where this is called) -/
+def tcParams (allowFn : Bool) : (gp : List (String × Ty)) → (ep : List (String × Ty)) → Option Msg
+  | (gn, g) :: gs, (n, e) :: rest =>
+    if gn != n then some .fnParamMissing else
+    match typeCheck allowFn g e with
+    | some m => some m
+    | none => tcParams allowFn gs rest
+  | _, _ => none
 def tcTys (allowFn : Bool) : (gs : List Ty) → (es : List Ty) → Option Msg
   | g :: gs, e :: es =>
     match typeCheck allowFn g e with
